@@ -1042,7 +1042,7 @@ def write_evidence(pid, tier, seed, spec, results, build_info, wall, n_viol, not
             checker_cmd="cargo kani --only-codegen (kani 0.68.0) ; goto-cc ; goto-instrument --add-library/--generate-function-body/--drop-unused-functions ; cbmc " + " ".join(CBMC_FLAGS) + " --max-field-sensitivity-array-size 1024 --unwind <per harness> [--unwindset ...] (CBMC 6.11.0, cadical)",
             trusted_base=spec.get("trusted", []) + ["Kani 0.68.0 / CBMC 6.11.0 / CaDiCaL", "rustc MIR of Kani's pinned toolchain"],
             explanation=spec.get("explanation", ""),
-            bounds=spec.get("bounds", {}), outside_claim=spec.get("outside", []),
+            bounds=spec.get("bounds", {}), outside_claim=list(spec.get("outside", [])) + [f"NOT RUN (written, beyond reach): {h.name}" + (f" - {getattr(__import__('props'), 'OFF', {}).get(h.name)}" if getattr(__import__('props'), 'OFF', {}).get(h.name) else "") for h in spec["harnesses"] if h.tier == "off"],
             functions_encoded=sorted(f for f in funcs if f)[:200],
             build=build_info, shims=shim_hashes, solver_seconds=round(solver_s, 2), symex_seconds=round(symex_s, 2),
             repo_tree_sha=sha256_tree(REPO, REPO_CRATES), harnesses=insts,
